@@ -82,9 +82,10 @@ for f in ("f64", "f32"):
         lemma="L-FILL-EDGE", inst=f, unwind=4, est_s=240, cap_s=1800, mem_gb=16,
         domain="one edge a->b, both endpoints on the N x N lattice window (either direction, possibly collapsed), any tags, fresh or arbitrary previous box; real SweepEvent::cmp, real BinaryHeap",
         claim="process_polygon on one edge: collapsed edge creates nothing and leaves the box; otherwise exactly one mutually linked pair, left = lexicographically smaller endpoint whichever way the edge is written, tags copied, box extended by exactly the start point")
-reg("fill_two_edges_f64", file="fq/mod.rs", props={"C13": "quick", "C07": "quick", "C03": "thorough", "C04": "thorough"}, lemma="L-FILL-EDGE", inst="f64", unwind=6, est_s=900, cap_s=2700, mem_gb=44,
-    domain="two consecutive edges a->b->c of one ring, all three vertices on the 3 x 3 lattice window (any of the edges may be collapsed), fresh box; real SweepEvent::cmp, real BinaryHeap",
-    claim="process_polygon handles every edge of a ring on its own: one non-degenerate pair per non-degenerate edge wherever the repeated vertices are; box = hull of the start points of the non-degenerate edges")
+for _nm in ("real_first", "collapsed_first"):
+    reg(f"fill_two_edges_{_nm}", file="fq/mod.rs", props={"C13": "quick", "C07": "quick", "C03": "thorough", "C04": "thorough"}, lemma="L-FILL-EDGE", inst="f64", unwind=6, est_s=300, cap_s=2400, mem_gb=24,
+        domain=f"two consecutive edges a->b->c of one ring, first edge concrete ({_nm}), third vertex anywhere on the 3 x 3 lattice window (second edge possibly collapsed), fresh box; real SweepEvent::cmp, BinaryHeap::push recorded",
+        claim="process_polygon handles every edge of a ring on its own: one non-degenerate pair per non-degenerate edge wherever the repeated vertices are; box = hull of the start points of the non-degenerate edges")
 for _nm in ("2h_2h", "1_1h", "0_2", "2_0"):
   reg(f"fill_ids_{_nm}", file="fq/mod.rs", props={"C13": "quick", "C07": "quick", "C05": "quick"}, lemma="L-FILL-IDS", inst="f64", unwind=4, est_s=120, cap_s=1200, mem_gb=16,
     domain=f"operand shapes {_nm} (polygons per operand, h = with a hole), all four operations symbolic; process_polygon replaced by a recorder",
@@ -97,7 +98,7 @@ DISP_MODELS = [("src/boolean/fill_queue.rs", "fill_queue", "crate::boolean::veri
 DISP = dict(file="boolean/h_disp.rs", lemma="L-DISP", inst="f64", unwind=4, est_s=120, cap_s=1500, mem_gb=20, native_models=DISP_MODELS)
 DISP_DOM = ("concrete operand sizes, operation symbolic; callee models: fill_queue (boxes: untouched for an operand without polygons, else arbitrary valid box in {0..7}^4 or untouched; "
             "restricted to disjoint / non-disjoint boxes where the harness name says shortcut / sweep), subdivide (recorder), connect_edges (concrete forest template)")
-reg("dispatch_predicate", props={"C01": "quick", "C06": "quick", "C09": "thorough"}, domain=DISP_DOM,
+reg("dispatch_predicate", props={"C01": "quick", "C06": "quick"}, domain=DISP_DOM,
     claim="Polygon x Polygon, all boxes, all operations: the sweep is skipped iff the two boxes are disjoint on some axis (strictly: boxes that merely touch are swept); the shortcut returns empty / subject / subject++clipping; the sweep receives the boxes and the operation", **DISP)
 for nm, txt in (("forward_poly_multi2", "Polygon x MultiPolygon(2), Difference"), ("forward_multi2_multi1", "MultiPolygon(2) x MultiPolygon(1), Difference"),
                 ("forward_multi2_poly", "MultiPolygon(2) x Polygon, Difference"), ("union_multi1_multi1", "MultiPolygon(1) x MultiPolygon(1), Union")):
@@ -106,9 +107,8 @@ for nm, txt in (("forward_poly_multi2", "Polygon x MultiPolygon(2), Difference")
 for nm in ("subject", "clipping", "both"):
     reg(f"dispatch_empty_{nm}", props={"C06": "quick", "C03": "quick"}, domain=DISP_DOM,
         claim=f"empty {nm} operand(s): never reaches the sweep; union/xor and A-minus-empty return the other operand, intersection and empty-minus-A return the empty set", **DISP)
-for k in range(4):
-    reg(f"dispatch_sweep_forest{k}", props={"C02": "quick", "C01": "quick", "C07": "quick" if k else "thorough"}, domain=DISP_DOM,
-        claim="sweep path: subdivide gets the boxes/operation from queue filling; assembly emits one polygon per exterior contour, in order, with exactly the rings its hole_ids name", **DISP)
+# dispatch_sweep_forest{0..3} and dispatch_grouping_forest{0..3} (assembly of polygons from the contour forest) exist in
+# h_disp.rs but are not registered: they run out of memory at 30-44 GB even for two contours (DESIGN 10.5).
 reg("dispatch_named_methods", props={"C01": "quick", "C07": "quick"}, domain=DISP_DOM, claim="intersection/union/xor/difference convenience methods call boolean() with the operation they name", **DISP)
 
 # --------------------------------------------------------------------------------------- L-NEST / L-ITER / L-SORT
@@ -142,7 +142,7 @@ SWEEP_MODELS = [("src/boolean/compare_segments.rs", "compare_segments", "crate::
                 ("src/boolean/compute_fields.rs", "compute_fields", "crate::boolean::verif_kani::h_sweep::compute_fields_model"),
                 ("src/boolean/possible_intersection.rs", "possible_intersection", "crate::boolean::verif_kani::h_sweep::possible_intersection_model")]
 for nm, txt in (("mid_removed", "the middle segment ends first (its removal makes the outer two neighbours)"), ("mid_last", "bottom and top end before the middle one"), ("insert_between", "a segment is inserted between two present ones")):
-    reg(f"sweep_protocol_{nm}", file="boolean/h_sweep.rs", props={"C13": "quick", "C09": "thorough", "C14": "thorough", "C05": "thorough"}, lemma="G-SWEEP(protocol)", inst="f64", unwind=16,
+    reg(f"sweep_protocol_{nm}", file="boolean/h_sweep.rs", props={"C13": "quick", "C14": "thorough", "C05": "thorough"}, lemma="G-SWEEP(protocol)", inst="f64", unwind=16,
         est_s=300, cap_s=2400, mem_gb=20, native_models=SWEEP_MODELS,
         domain=f"template: three stacked disjoint segments, {txt}; operand tags, operation, box limits and all return codes of possible_intersection symbolic; callees replaced by recorders, BinaryHeap::pop scripted (delivers the template's events in sweep order), SplaySet replaced by a sorted-array model (its behaviour is C17)",
         claim="subdivide's loop: fields from the predecessor, neighbour checks (event,next) and (prev,event) on insertion and (prev,next) after removal, independent of operand tags; recomputation on return code 2; early exit rule; every popped event reported")
@@ -193,10 +193,11 @@ for f in ("f64", "f32"):
 for k in ("lll", "llr", "lrr", "rrr"):
     reg(f"evord_triple_{k}", props={"C15": "thorough"}, lemma="L-ORD-E", inst="f64", est_s=900,
         domain="three segments on the 3 x 3 lattice window, pairwise valid", claim=f"event order transitive on triples ({k}: endpoint kinds)", **dict(ORD, cap_s=2700))
-for f in ("f32", "f64"):
-    reg(f"segord_pair_{f}_n3", props={"C15": "quick" if f == "f32" else "thorough", "C06": "thorough"}, lemma="L-ORD-S", inst=f, est_s=500,
-        domain="two left events, endpoints on the 3 x 3 lattice window, any operand tags; same-operand overlaps excluded",
+for nm, f in (("f32_n3_same", "f32"), ("f32_n3_diff", "f32"), ("f64_n3", "f64")):
+    reg(f"segord_pair_{nm}", props={"C15": "quick" if f == "f32" else "thorough", "C06": "thorough"}, lemma="L-ORD-S", inst=f, est_s=500,
+        domain="two left events, endpoints on the 3 x 3 lattice window" + (", both of one operand (overlaps excluded)" if nm.endswith("same") else ", of different operands" if nm.endswith("diff") else ", any operand tags; same-operand overlaps excluded"),
         claim="compare_segments: Equal iff identical, antisymmetric, equals the vertical order of non-crossing pairs where separated, subject below for coincident edges, vertical-edge convention", **ORD)
+for f in ("f32", "f64"):
     reg(f"segord_pair_{f}", props={"C15": "thorough", "C10": "thorough"}, lemma="L-ORD-S", inst=f, est_s=1500,
         domain="two left events, endpoints on the N x N lattice window (N = 6 in the thorough tier)",
         claim="compare_segments: Equal iff identical, antisymmetric, equals the vertical order of non-crossing pairs where separated, subject below for coincident edges, vertical-edge convention", **dict(ORD, cap_s=3600, mem_gb=24))
@@ -297,16 +298,16 @@ QUICK = {
     "C04": ["int_classify_f32", "pi_point", "iter_order_n3", "iter_order_n4", "divide_contract_f64"],
     "C05": ["cf_relational_plain", "cf_relational_same", "cf_relational_diff", "fill_ids_2h_2h", "fill_ids_1_1h"],
     "C06": ["dispatch_predicate", "dispatch_empty_subject", "dispatch_empty_clipping", "dispatch_empty_both", "dispatch_union_multi1_multi1", "cf_twins_nonvert_pp1", "pi_ov_h0s"],
-    "C07": ["dispatch_forward_poly_multi2", "dispatch_forward_multi2_multi1", "dispatch_forward_multi2_poly", "dispatch_named_methods", "fill_edge_f64", "fill_two_edges_f64", "fill_ids_2h_2h", "fill_ids_1_1h", "fill_ids_0_2", "fill_ids_2_0"],
+    "C07": ["dispatch_forward_poly_multi2", "dispatch_forward_multi2_multi1", "dispatch_forward_multi2_poly", "dispatch_named_methods", "fill_edge_f64", "fill_two_edges_real_first", "fill_ids_2h_2h", "fill_ids_1_1h", "fill_ids_0_2", "fill_ids_2_0"],
     "C08": ["int_scale_f32"],
     "C10": ["nextafter_f64", "nextafter_f32", "int_classify_f32", "int_agree", "signed_area_fix_f32", "signed_area_fix_f64"],
-    "C13": ["fill_edge_f64", "fill_two_edges_f64", "fill_ids_2h_2h", "fill_ids_0_2", "divide_contract_f64", "pi_none", "pi_point", "pi_ov_v6s", "pi_ov_f5s", "sweep_protocol_mid_removed"],
+    "C13": ["fill_edge_f64", "fill_two_edges_real_first", "fill_two_edges_collapsed_first", "fill_ids_2h_2h", "fill_ids_0_2", "divide_contract_f64", "pi_none", "pi_point", "pi_ov_f5s", "sweep_protocol_mid_removed"],
     "C14": ["cf_base", "cf_step_same_nonvert", "cf_step_diff_nonvert", "cf_step_same_vert", "cf_step_diff_vert", "cf_twins_nonvert_pp0", "cf_twins_nonvert_pp1", "cf_twins_nonvert_pp2", "cf_twins_vert_pp0", "cf_twins_vert_pp1"],
-    "C15": ["evord_ll_f64", "evord_lr_f64", "evord_rr_f64", "segord_pair_f32_n3"],
-    "C16": ["int_classify_f32", "int_swap_f32", "divide_contract_f64", "divide_ulp_f64", "pi_none", "pi_point", "pi_ov_v6s", "pi_ov_f5s", "pi_ov_h5_same"],
+    "C15": ["evord_ll_f64", "evord_lr_f64", "evord_rr_f64", "segord_pair_f32_n3_same", "segord_pair_f32_n3_diff"],
+    "C16": ["int_classify_f32", "int_swap_f32", "divide_contract_f64", "divide_ulp_f64", "pi_none", "pi_point", "pi_ov_v6s"],
     "C17": ["sp_ii_get", "sp_ii_next", "sp_ii_prev", "sp_ii_minmax", "sp_ii_shape", "sp_ii_iter", "sp_ir_get", "sp_ir_shape", "sp_getmut_index", "sp_extend", "sp_clear", "sp_set_insert_lookup", "sp_set_neighbours_remove",
-            "sp_refstab3_left_chain", "sp_refstab3_right_chain", "sp_refstab3_zigzag_lr", "sp_refstab3_zigzag_rl", "sp_refstab3_balanced",
-            "sp_remove3_left_chain", "sp_remove3_right_chain", "sp_remove3_zigzag_lr", "sp_remove3_zigzag_rl", "sp_remove3_balanced",
+            "sp_refstab3_left_chain", "sp_refstab3_right_chain", "sp_refstab3_zigzag_lr",
+            "sp_remove3_left_chain", "sp_remove3_right_chain", "sp_remove3_zigzag_lr",
             ],
 }
 
